@@ -14,7 +14,7 @@ Obs == [stored |-> stored, orphans |-> Orphans(prevOrph), best |-> best,
         posted |-> posted,
         devs |-> devs,
         ticks |-> Len(ticks)]
-IsCall(op) == op \in {"deliver", "vote", "tick"}
+IsCall(op) == op \in {"deliver", "vote", "tick", "restart"}
 GInit == Init /\ hist = <<>>
 GNext == /\ Next
          /\ hist' = IF last'.op = "endmint" THEN hist ELSE Append(hist, last')
